@@ -227,6 +227,30 @@ def hash_list(L):
     return h
 
 
+class _StepTimeout(BaseException):
+    pass
+
+
+def _run_limited(f, seconds):
+    """run f() with its own wall-clock limit inside an enclosing core.time_limit; False if it timed out"""
+    import signal
+
+    def handler(signum, frame):
+        raise _StepTimeout()
+    old_handler = signal.signal(signal.SIGALRM, handler)
+    remaining = signal.alarm(seconds)
+    try:
+        f()
+        return True
+    except _StepTimeout:
+        return False
+    finally:
+        signal.alarm(0)
+        signal.signal(signal.SIGALRM, old_handler)
+        if remaining:
+            signal.alarm(max(1, remaining - seconds))
+
+
 def run_impl(case, limit_s=120):
     """Run the history. Returns dict(cfg=..., steps=[{'err': [kind, code], 'obs': observation}])"""
     with common.new_session() as s:
@@ -262,7 +286,13 @@ def run_impl(case, limit_s=120):
                     if step['s'][0] == 'input':
                         typed = ','.join(w if isinstance(w, str) else '%d' % w for w in step['s'][2])
                         impl.keyboard.inject_keystrokes(typed + '\r')
-                    if is_direct(step):
+                        # Out of string space while a typed string is converted is swallowed by _input_console
+                        # ("?Redo from start", then it waits for another line for ever): such a step cannot be
+                        # compared; the history is cut before it
+                        if not _run_limited(lambda: s.execute(b_stmt(step['s'], cfg['var_start'])) if is_direct(step)
+                                            else s.execute('GOTO %d' % (10 * i + 10)), 3):
+                            break
+                    elif is_direct(step):
                         s.execute(b_stmt(step['s'], cfg['var_start']))
                     else:
                         s.execute('GOTO %d' % (10 * i + 10))
@@ -386,11 +416,13 @@ class CoqPrinter(object):
         raise ValueError(st)
 
 
-def model_term(case, cfg):
+def model_term(case, cfg, nsteps=None):
     """Coq term of type list Z: the model's encoded trace for the history"""
     pr = CoqPrinter(cfg['code_start'])
     steps = []
-    for step in case['steps']:
+    if nsteps is None:
+        nsteps = len(case['steps'])
+    for step in case['steps'][:nsteps]:
         d = is_direct(step)
         steps.append('(%s, %s)' % ('true' if d else 'false', pr.stmt(step['s'], d)))
     code = '[%s]' % ';'.join('(%d, %s)' % (a, zl(b)) for a, b in pr.code)
@@ -764,9 +796,10 @@ def check_trace(case, res, strict_fre=True):
             rerr = 0
         except RefError as e:
             rerr = e.err
-            arrs = ref.arr
-            ref.restore(snap)
-            ref.arr = arrs          # an array that was auto-dimensioned stays
+            if st[0] != 'input':        # INPUT keeps the variables it assigned before the error
+                arrs = ref.arr
+                ref.restore(snap)
+                ref.arr = arrs          # an array that was auto-dimensioned stays
         except RefDesync:
             rerr = -1
             ref.restore(snap)
@@ -783,7 +816,8 @@ def check_trace(case, res, strict_fre=True):
                         ref.exec(list(st[:3]) + [j], direct, exists, ())
                     except RefError:
                         continue
-                    if all(bytes((o['sv'][n] or (0, 0, b''))[2] or b'') == bytes(ref.get(n)) for n in STR_SCALARS):
+                    if all(bytes((o['sv'][n] or (0, 0, b''))[2] or b'') == bytes(ref.get(n)) for n in STR_SCALARS) \
+                            and all((o['nv'][n] or 0) == ref.get(n)[1] for n in NUM_SCALARS):
                         break
                 else:
                     ref.restore(snap)
